@@ -47,6 +47,63 @@ class SimTime:
         return getattr(self._real, name)
 
 
+_TRACKED = None      # module-level / class-level containers of coba that were empty when coba was imported
+
+
+def _discover_containers():
+    """Every dict / list / set that is a module global or a class attribute of a coba module and is EMPTY at import
+    time is treated as process-global mutable state (caches, memo tables, registries filled at run time).  A spawned
+    worker starts with them empty, so they are virtualised per simulated pid; containers that are non-empty at
+    import time (registries filled by decorators, constants) are assumed read-only at run time."""
+    import collections
+    global _TRACKED
+    if _TRACKED is not None:
+        return _TRACKED
+    seen, out = set(), []
+
+    def consider(owner, attr, v):
+        if attr.startswith("__") or id(v) in seen:
+            return
+        if getattr(owner, "__name__", "") == "CobaRegistry":
+            return      # filled lazily from entry points whose modules are imported once per interpreter: an import-time registry
+        if isinstance(v, (dict, list, set)) and type(v) in (dict, list, set, collections.defaultdict, collections.OrderedDict) and len(v) == 0:
+            seen.add(id(v))
+            out.append((f"{getattr(owner, '__name__', owner)}.{attr}", v))
+
+    for name, mod in sorted(sys.modules.items()):
+        if mod is None or not (name == "coba" or name.startswith("coba.")) or ".tests" in name:
+            continue
+        for attr, val in list(vars(mod).items()):
+            consider(mod, attr, val)
+            if isinstance(val, type) and getattr(val, "__module__", "").startswith("coba"):
+                for a2, v2 in list(vars(val).items()):
+                    consider(val, a2, v2)
+                meta = type(val)
+                if meta is not type and getattr(meta, "__module__", "").startswith("coba"):
+                    for a2, v2 in list(vars(meta).items()):
+                        consider(meta, a2, v2)
+    _TRACKED = out
+    return out
+
+
+def _take(c):
+    return dict(c) if isinstance(c, dict) else (set(c) if isinstance(c, set) else list(c))
+
+
+def _put(c, content):
+    c.clear()
+    if isinstance(c, (dict, set)):
+        c.update(content)
+    else:
+        c.extend(content)
+
+
+def reset_coba_globals():
+    """Give the calling (outside / main-process) context the process-global state of a fresh interpreter."""
+    for _, c in (_TRACKED or ()):
+        c.clear()
+
+
 _BUILTIN_HASH = hash
 
 
@@ -105,7 +162,8 @@ class GlobalsVirt:
         import coba.random as cr
         import coba.pipes.multiprocessing as cpm
         ctx = {a: CobaContext.__dict__[a] for a in self.CTX_ATTRS if a in CobaContext.__dict__}
-        return {"ctx": ctx, "rand": cr._random, "ukey": _ukey_get(cpm.UniqueKey), "proc": _mpp._current_process}
+        return {"ctx": ctx, "rand": cr._random, "ukey": _ukey_get(cpm.UniqueKey), "proc": _mpp._current_process,
+                "cont": [_take(c) for _, c in (_TRACKED or ())]}
 
     def _apply(self, st):
         from coba.context import CobaContext
@@ -118,6 +176,9 @@ class GlobalsVirt:
                 delattr(CobaContext, a)
         cr._random = st["rand"]
         _ukey_set(cpm.UniqueKey, st["ukey"])
+        conts = st.get("cont")
+        for i, (_, c) in enumerate(_TRACKED or ()):
+            _put(c, conts[i] if conts is not None else ())
         _mpp._current_process = st["proc"]
 
     def _pristine(self, pid):
@@ -149,6 +210,7 @@ class GlobalsVirt:
         self.outside_proc = _mpp._current_process
         _mpp._current_process = prims._CurProc(1000, "MainProcess")
         # every run simulates a fresh main interpreter as well
+        reset_coba_globals()
         _ukey_set(cpm.UniqueKey, _ukey_fresh())
         cr._random = cr.CobaRandom(int(splitmix64(self.seed, 1000, 0xA11CE) % (2 ** 30)))
         self.loaded = 1000
@@ -202,6 +264,8 @@ def install():
         OM.time = SimTime(_time)
     except Exception:       # pragma: no cover
         pass
+    import coba  # noqa: F401  (all sub-modules are imported by the package)
+    _discover_containers()
     # explicit hash() calls inside coba see a per-simulated-process salt (dict/set internals are unaffected)
     for name, mod in list(sys.modules.items()):
         if (name == "coba" or name.startswith("coba.")) and ".tests" not in name and mod is not None and "hash" not in vars(mod):
